@@ -13,6 +13,9 @@ denotes, with ordinary two's-complement fixed-width arithmetic:
     signed `/` and `%` accept floor and truncate;
   * division by zero, undeclared signedness, `top` leaves, ill-sized trees: not judged (None).
 
+Raw-node instructions (`rawop name`, `rawuop`, `rawslc pos size`, `rawcomp n`) denote the same trees as the
+operator-API instructions and are read as such (`canon`).
+
 `width(script)` is the width the construction dictates (None when the tree is ill-sized).
 """
 
@@ -28,6 +31,24 @@ class IllSized(Exception):
     pass
 
 
+def canon(script):
+    """raw-node instructions denote the same tree as their operator-API counterparts."""
+    out = []
+    for ins in script:
+        o = ins[0]
+        if o == "rawop":
+            out.append([ins[1]])
+        elif o == "rawuop":
+            out.append([ins[1]])
+        elif o == "rawslc":
+            out.append(["slice", ins[1], ins[1] + ins[2]])
+        elif o == "rawcomp":
+            out.append(["compose", ins[1]])
+        else:
+            out.append(ins)
+    return out
+
+
 def M(w):
     return (1 << w) - 1
 
@@ -40,7 +61,7 @@ def width(script):
     """width dictated by construction, None if the tree is not well-sized."""
     try:
         st = []
-        for ins in script:
+        for ins in canon(script):
             o = ins[0]
             if o in ("cst",):
                 if ins[2] <= 0:
@@ -99,7 +120,7 @@ def evaluate(script, decl, rho):
         return None
     dd = {d[0]: d[1:] for d in decl}
     st = []   # (width, frozenset)
-    for k, ins in enumerate(script):
+    for k, ins in enumerate(canon(script)):
         o = ins[0]
         if o == "cst":
             st.append((ins[2], frozenset([ins[1] & M(ins[2])])))
